@@ -422,10 +422,10 @@ Section Project.
   | RChanges (local : bool) (edits : list (nat * list N)) (moves : list nat).
 
   (* get_changes for the PyName with key [kq], found under the spelling [x] in module [m].
-     [repaired] = false is the code as found.  [repaired] = true is the behaviour after the two small fixes proposed
-     for findings C01-builtin-renamed (a builtin is refused) and C01-module-alias-moves-module (the file is moved
-     only when the renamed name is the module's own name): the runner accepts either, so that the check keeps
-     passing when the fixes are applied, and the evidence says which one was observed. *)
+     [repaired] = true is the code as it is now: a builtin is refused (commit 3758d0a) and the file of a module is
+     moved only when the renamed name is the module's own name, not an alias of it (commit 94dbab8).
+     [repaired] = false is the code as it was found (findings C01-builtin-renamed and C01-module-alias-moves-module,
+     now fixed); it is kept only for the theorems that document these two defects. *)
   Definition module_named (a : nat) (x : ident) : bool :=
     match ctx_at a with Some c => N.eqb (x_name c) x | None => false end.
 
@@ -458,12 +458,13 @@ Section Project.
     | None => RUnmodelled
     | Some (c, q) => rename_key repaired cmp m (t_name q) (gkey_of m c q) n_is_keyword
     end.
-  Definition project_rename := project_rename_gen false.
+  Definition project_rename := project_rename_gen true.
+  Definition project_rename_as_found := project_rename_gen false.
 
   (* Rename(project, resource).get_changes(new_name): the module itself *)
   Definition module_rename (cmp : nat -> tok -> bool) (m : nat) (n_is_keyword : bool) : result :=
     match ctx_at m with
-    | Some c => rename_key false cmp m (x_name c) (GMod m) n_is_keyword
+    | Some c => rename_key true cmp m (x_name c) (GMod m) n_is_keyword
     | None => RUnmodelled
     end.
 
